@@ -362,6 +362,7 @@ def access_entry(I):
             if k1 == "return":
                 rec["result"] = describe(view, v1)
                 rec["writes"] = len([e for e in s1.events if e[0] in ("write", "write-arena", "push", "clear")])
+                rec["len0"] = list(s1.bounds.get(("len0",), (None, None)))
             recs.append(rec)
 
     for case in ("live", "removed", "oob"):
@@ -505,9 +506,23 @@ def loop_entry(I, entry):
     key = NID + entry
     heads = sorted(I.loop_heads(key))
     records = []
-    if len(heads) != 1:
-        return [{"entry": entry, "phase": "setup", "exit": "undecided", "msg": "expected exactly one loop in %s, found %d" % (entry, len(heads)), "case": None}]
-    head = heads[0]
+    from ..cfg import CFG
+    cfg = CFG(I.fns[key]["mir"])
+    # the outermost loop carries the invariant; loops nested in it are handled by the ordinary loop summaries inside one iteration
+    outer = [h for h in heads if all(h == o or cfg.dominates(h, o) for o in heads)]
+    if len(outer) != 1:
+        return [{"entry": entry, "phase": "setup", "exit": "undecided", "msg": "expected one outermost loop in %s, found %d loop heads %s" % (entry, len(heads), heads), "case": None}]
+    head = outer[0]
+    body = {b for b in cfg.reach if cfg.dominates(head, b) and head in cfg.reachable_from(b)} | {head}
+    assigned = set()
+    for b in body:
+        blk = I.fns[key]["mir"]["blocks"][b]
+        for s_ in blk["stmts"]:
+            if s_["k"] == "assign" and not s_["place"]["p"]:
+                assigned.add(s_["place"]["l"])
+        t_ = blk["term"]
+        if t_["k"] == "call" and t_.get("dest") is not None and not t_["dest"]["p"]:
+            assigned.add(t_["dest"]["l"])
     # ---- phase A
     st = State()
     x = st.new_node(True, "arg:self")
@@ -526,7 +541,10 @@ def loop_entry(I, entry):
         if t.kind == "loophead":
             rec["exit"] = "loophead"
             fr = t.st.frames[-1]
-            cur = [l for l, v in fr.locals.items() if isinstance(v, VEnum) and v.adt == OPTION and v.variant == "Some" and t.st.node_of_id(v.get("0")) == x]
+            cur = [l for l, v in fr.locals.items() if l in assigned and
+                   ((isinstance(v, VEnum) and v.adt == OPTION and v.variant == "Some" and t.st.node_of_id(v.get("0")) == x) or
+                    (isinstance(v, VStruct) and v.adt == NODEID and t.st.node_of_id(v) == x))]
+            # MIR often keeps a second copy of the cursor in a temporary that is dead at the head: keep the user variable (lowest index)
             rec["cursor_locals"] = cur
             prefix_locals.append((cur, {l: v for l, v in fr.locals.items()}))
         records.append(rec)
@@ -534,11 +552,21 @@ def loop_entry(I, entry):
     if not prefix_locals:
         return records
     cur_locals = prefix_locals[0][0]
+    live_head = None
+    try:
+        from . import ppmodels
+        live_head = ppmodels.live_in(I, key)[head]
+    except Exception:
+        live_head = None
+    if live_head is not None:
+        cur_locals = [l for l in cur_locals if l in live_head]
+        prefix_locals = [([l for l in p[0] if l in live_head], p[1]) for p in prefix_locals]
     if len(cur_locals) != 1 or any(p[0] != cur_locals for p in prefix_locals):
-        records.append({"entry": entry, "phase": "setup", "exit": "undecided", "msg": "cannot identify the loop cursor of " + entry, "case": None})
+        records.append({"entry": entry, "phase": "setup", "exit": "undecided", "msg": "cannot identify the loop cursor of %s (candidates %s)" % (entry, cur_locals), "case": None})
         return records
     cl = cur_locals[0]
     base_locals = prefix_locals[0][1]
+    cur_is_option = isinstance(base_locals[cl], VEnum)
     # ---- phase B: generic iteration
     for alias in (True, False):
         st = State()
@@ -559,7 +587,7 @@ def loop_entry(I, entry):
         locs = {}
         for l, v in base_locals.items():
             locs[l] = v      # ids of x are identical in both states (same individual name and symbols)
-        locs[cl] = some(st.id_of(m))
+        locs[cl] = some(st.id_of(m)) if cur_is_option else st.id_of(m)
         st.frames.append(Frame(st.frame_counter, key, locs, head, None, None, None, None))
         st.meta["stop_at"] = (st.frames[-1].uid, head)
         st.meta["stop_armed"] = False
@@ -568,7 +596,9 @@ def loop_entry(I, entry):
             rec = iteration_record(I, entry, t, cl)
             records.append(rec)
         I.explore([st], on_b, stop_kind="loophead")
-    # ---- phase C: exit with an exhausted cursor
+    # ---- phase C: exit with an exhausted cursor (Option cursors only; a NodeId cursor leaves the loop from inside an iteration)
+    if not cur_is_option:
+        return records
     st = State()
     x = st.new_node(True, "arg:self")
     st.meta["args"] = (x,)
@@ -607,7 +637,11 @@ def iteration_record(I, entry, t, cl):
     if t.kind == "loophead":
         rec["exit"] = "loophead"
         fr = st.frames[-1]
-        nc = view.decode(fr.locals.get(cl)) if cl in fr.locals else ("bad", "cursor unset")
+        cv = fr.locals.get(cl)
+        if isinstance(cv, VStruct) and cv.adt == NODEID:
+            nc = st.node_of_id(cv) or ("bad", repr(cv))
+        else:
+            nc = view.decode(cv) if cl in fr.locals else ("bad", "cursor unset")
         rec["next_cursor"] = nc if not isinstance(nc, tuple) else str(nc)
     rec["shape"] = shape_of(view, st, m, x if x != m else None)
     rec["freed"] = [k for k, r in st.nodes.items() if not r.fresh and r.live0 and "stamp" in r.cur and not view.live_post(k)]
@@ -615,12 +649,24 @@ def iteration_record(I, entry, t, cl):
     rec["pre_parent"] = view.pre(m, "parent")
     rec["cursor_is_root"] = (m == x)
     wrote = bool(rec.get("overlay"))
+    freed = rec["freed"]
     if wrote:
         mm = spec.Model(view)
-        mm.op("remove", m)
+        for f in (freed or [m]):
+            mm.op("remove", f)
         rec["model_diff"] = [(a, str(b), str(c)) for a, b, c in mm.diff()]
     else:
         rec["model_diff"] = []
+    # the general form of the step obligations (any loop shape): what was freed lies below the cursor, the next cursor stays inside the subtree of x,
+    # every iteration makes progress, and the loop is left only after x itself was freed
+    rec["freed_below_cursor"] = all(f == m or st.anc_query(m, f) is True for f in freed)
+    nc = rec.get("next_cursor")
+    if t.kind == "loophead":
+        isnode = isinstance(nc, str) and nc in st.nodes
+        rec["next_in_subtree"] = bool(isnode and (nc == x or st.anc_query(x, nc) is True))
+        rec["next_is_live"] = bool(isnode and nc not in freed)
+        rec["progress"] = bool(freed) or bool(isnode and st.anc_query(m, nc) is True)
+    rec["root_freed"] = x in freed
     return rec
 
 
